@@ -376,3 +376,26 @@ def diff_streams(chk, name, reqs, real, model, describe=None, on_diff=None, max_
     chk.bump(f"corr:{name}:cases", len(reqs))
     chk.bump(f"corr:{name}:diffs", nd)
     return nd
+
+
+def run_node(reqs, timeout=3600):
+    """reqs: list of JSON-able objects for js/runner.mjs; returns list of decoded answers."""
+    data = "\n".join(json.dumps(r) for r in reqs) + "\n"
+    p = subprocess.run([NODE22, os.path.join(VERIF, "js", "runner.mjs")], input=data.encode(),
+                       stdout=subprocess.PIPE, stderr=subprocess.PIPE, timeout=timeout, env=ENV)
+    out = [l for l in p.stdout.decode("utf-8", "replace").split("\n") if l.strip()]
+    if p.returncode != 0 or len(out) != len(reqs):
+        raise BrokenTie("node-runner", f"rc={p.returncode} answers={len(out)}/{len(reqs)} {p.stderr.decode('utf-8','replace')[-2000:]}")
+    return [json.loads(l) for l in out]
+
+
+_RUNTIME = None
+
+
+def runtime_string():
+    """the X/Y/Z/P/Q helper definitions as emitted by the real compiler"""
+    global _RUNTIME
+    if _RUNTIME is None:
+        o = json.loads(run_harness([req("group", json.dumps({"files": []}))])[0])
+        _RUNTIME = o["runtime"]
+    return _RUNTIME
